@@ -10,7 +10,8 @@
            transition only where no extension can match, terminal only if no
            byte extends, tags exactly those of the matching alternatives. *)
 From Coq Require Import List NArith Bool Arith.
-From SNT Require Export Base.Outcome Base.Report Automata.Regex Automata.NFA Automata.Build Automata.Compile.
+From SNT Require Export Base.Outcome Base.Report Automata.Regex Automata.NFA Automata.Build Automata.Compile
+  Automata.CompileFast.
 Import ListNotations.
 
 (* ---------- observed data ---------- *)
@@ -197,7 +198,8 @@ Definition c15_check (c : c15_case) : bool * bool :=
       let wf := tagwf e in
       ( consistent
         && nfa_eqb (build e) infa
-        && match compile_default (build e) with
+        (* compile_fast_default = compile_default (CompileFastProofs.compile_fast_default_eq) *)
+        && match compile_fast_default (build e) with
            | Ok d =>
                match canon d with
                | Some cd => list_eqb cstate_eqb cd idfa
